@@ -495,6 +495,22 @@ func YieldBlocked(site int) {
 	}
 	gs[g].blocked = true
 	lockWaits++
+	if LibraryStartsGoroutines || unmanaged > 0 {
+		// what the caller waits for may be held by a goroutine of the library's own, which runs in real
+		// time: failed tries prove nothing. Let it run; a wait that never ends shows as no progress
+		// (progress watchdog: the run cannot be decided), never as a deadlock verdict.
+		next := nextRunnable(g, false)
+		if next < 0 {
+			next = nextRunnable(g, true)
+		}
+		if next < 0 {
+			syscall.Syscall(syscall.SYS_SCHED_YIELD, 0, 0, 0)
+			return
+		}
+		step++
+		switchTo(next, site)
+		return
+	}
 	blockedStreak++
 	if blockedStreak > 4*ng+4 {
 		deadlock = true
